@@ -35,6 +35,8 @@ def run(ctx):
         progress(ctx, s)
         finaliser(ctx, crate, s, want)
     fill_helpers(ctx, crate)
+    from rules.c15 import pack_rule
+    pack_rule(ctx, crate)
     # not: returns to_bmoc; loop over entries advances by construction (for i in 1..len)
     ctx.not_decided("that the merges compute the set operation for all pairs of trees (tree shapes; no abstract domain in reach); that pack reaches a fixpoint")
     ctx.assume("DESIGN.md appendix A: `and` and `not` of packed inputs are packed (paper argument)")
